@@ -34,6 +34,8 @@ type pathSpec struct {
 	AtReturn func(state int, r *ssa.Return, known map[int]bool)
 	// MaxVisits bounds the exploration (defensive).
 	MaxVisits int
+	// Inline: see through this call (nil = treat it as an ordinary event).
+	Inline func(cl *ssa.Call) *ssa.Function
 }
 
 type boolEnv map[ssa.Value]bool
@@ -79,40 +81,82 @@ func isBoolType(v ssa.Value) bool {
 
 // explorePaths runs the automaton over all feasible paths. Returns the number
 // of (block,state,env) configurations visited; -1 if the bound was hit.
+//
+// When ps.Inline returns a function for a call, the call is seen through: the
+// callee's paths are explored from the current state (its instructions and
+// branch edges are delivered to Step like the caller's), and the caller
+// continues after the call once for every state the callee can return in.
+// The call instruction itself is then not delivered. Depth is bounded by 3.
 func explorePaths(ps *pathSpec) int {
 	type cfgKey struct {
 		b     int
 		state int
 		env   string
 	}
-	seen := map[cfgKey]bool{}
+	type frame struct {
+		fn    *ssa.Function
+		top   bool
+		seen  map[cfgKey]bool
+		exits map[int]bool
+		depth int
+	}
 	max := ps.MaxVisits
 	if max == 0 {
 		max = 200000
 	}
 	visits := 0
-	var rec func(b *ssa.BasicBlock, state int, env boolEnv)
-	rec = func(b *ssa.BasicBlock, state int, env boolEnv) {
+	type calleeKey struct {
+		fn    *ssa.Function
+		state int
+	}
+	calleeMemo := map[calleeKey][]int{}
+	inProgress := map[*ssa.Function]bool{ps.Fn: true}
+	var walk func(fr *frame, b *ssa.BasicBlock, from int, state int, env boolEnv)
+	exploreCallee := func(callee *ssa.Function, state int, depth int) []int {
+		k := calleeKey{callee, state}
+		if r, ok := calleeMemo[k]; ok {
+			return r
+		}
+		fr := &frame{fn: callee, seen: map[cfgKey]bool{}, exits: map[int]bool{}, depth: depth}
+		inProgress[callee] = true
+		walk(fr, callee.Blocks[0], 0, state, boolEnv{})
+		delete(inProgress, callee)
+		var out []int
+		for s := range fr.exits {
+			out = append(out, s)
+		}
+		sort.Ints(out)
+		calleeMemo[k] = out
+		return out
+	}
+	walk = func(fr *frame, b *ssa.BasicBlock, from int, state int, env boolEnv) {
 		if visits < 0 {
 			return
 		}
-		k := cfgKey{b.Index, state, env.key()}
-		if seen[k] {
-			return
+		if from == 0 {
+			k := cfgKey{b.Index, state, env.key()}
+			if fr.seen[k] {
+				return
+			}
+			fr.seen[k] = true
+			visits++
+			if visits > max {
+				visits = -1
+				return
+			}
 		}
-		seen[k] = true
-		visits++
-		if visits > max {
-			visits = -1
-			return
-		}
-		for _, ins := range b.Instrs {
+		for i := from; i < len(b.Instrs); i++ {
+			ins := b.Instrs[i]
 			switch x := ins.(type) {
 			case *ssa.Phi:
 				continue
 			case *ssa.If, *ssa.Jump:
 				continue
 			case *ssa.Return:
+				if !fr.top {
+					fr.exits[state] = true
+					return
+				}
 				state = ps.Step(state, pathEvent{Ins: ins})
 				if state < 0 {
 					return
@@ -130,6 +174,16 @@ func explorePaths(ps *pathSpec) int {
 			case *ssa.Panic:
 				return
 			default:
+				if ps.Inline != nil && fr.depth < 3 {
+					if cl, ok := ins.(*ssa.Call); ok {
+						if callee := ps.Inline(cl); callee != nil && len(callee.Blocks) > 0 && !inProgress[callee] {
+							for _, s2 := range exploreCallee(callee, state, fr.depth+1) {
+								walk(fr, b, i+1, s2, env)
+							}
+							return
+						}
+					}
+				}
 				state = ps.Step(state, pathEvent{Ins: ins})
 				if state < 0 {
 					return
@@ -207,11 +261,30 @@ func explorePaths(ps *pathSpec) int {
 			if newEnv == nil {
 				newEnv = env2
 			}
-			rec(s, st, newEnv)
+			walk(fr, s, 0, st, newEnv)
 		}
 	}
-	rec(ps.Fn.Blocks[0], ps.Init, boolEnv{})
+	top := &frame{fn: ps.Fn, top: true, seen: map[cfgKey]bool{}}
+	walk(top, ps.Fn.Blocks[0], 0, ps.Init, boolEnv{})
 	return visits
+}
+
+// inlineOwnMethods is the usual Inline policy: see through calls to unexported
+// methods of the same package invoked on the current function's own receiver
+// (helpers a maintainer extracts from a method body).
+func inlineOwnMethods(cl *ssa.Call) *ssa.Function {
+	callee := cl.Call.StaticCallee()
+	if callee == nil || callee.Signature.Recv() == nil || len(cl.Call.Args) == 0 || callee.Object() == nil || callee.Object().Exported() {
+		return nil
+	}
+	caller := cl.Parent()
+	if caller == nil || callee.Pkg != topFunc(caller).Pkg {
+		return nil
+	}
+	if !isReceiverValue(topFunc(caller), captureOrigin(caller, cl.Call.Args[0])) && !isReceiverValue(caller, cl.Call.Args[0]) {
+		return nil
+	}
+	return callee
 }
 
 // errEdge: does the edge (cond==val) say "the error of call is nil" (wantNil)
@@ -233,4 +306,26 @@ func edgeSaysErr(ev pathEvent, call ssa.Value) (isNil bool, ok bool) {
 		return false, false
 	}
 	return nilWhenTrue == v, true
+}
+
+// withOwnHelpers visits fn and, transitively (depth <= 3), the unexported
+// same-package methods it calls on its own receiver.
+func withOwnHelpers(fn *ssa.Function, f func(g *ssa.Function)) {
+	seen := map[*ssa.Function]bool{}
+	var rec func(g *ssa.Function, d int)
+	rec = func(g *ssa.Function, d int) {
+		if seen[g] || d > 3 {
+			return
+		}
+		seen[g] = true
+		f(g)
+		allInstrs(g, func(ins ssa.Instruction) {
+			if cl, ok := ins.(*ssa.Call); ok {
+				if callee := inlineOwnMethods(cl); callee != nil && len(callee.Blocks) > 0 {
+					rec(callee, d+1)
+				}
+			}
+		})
+	}
+	rec(fn, 0)
 }
